@@ -2,6 +2,8 @@
    driver hidden           -> the (struct, field) pairs that are not part of a result tree
    driver <cases>          per line:
      P <passed> <hv> <json> -> OK <tree> TEXT <hex> | ERR | UNMODELLED
+     R <passed> <hv> <verdict> <val> -> eq if the conditions of the round-trip theorem hold of the file value, else <verdict>
+   driver <cases> <stats>  also writes how many R cases satisfied the conditions
                               (<passed>: N for nil, or the 18 booleans of a ValidateOpts as 0/1 characters) *)
 exception Bad of string
 open Model
@@ -33,6 +35,27 @@ let rec parse_json toks =
     let (kvs, r') = go (int_of_string n) r in (JObj kvs, r')
   | t :: _ -> raise (Bad ("json token " ^ t))
   | [] -> raise (Bad "json: end of input")
+
+let rec parse_val toks =
+  match toks with
+  | "S" :: h :: r -> (VStr (bytes_of_hex h), r)
+  | "I" :: n :: r -> (VInt (Convz.z_of_string n), r)
+  | "B" :: b :: r -> (VBool (b = "1"), r)
+  | "N" :: r -> (VNil, r)
+  | "F" :: r -> (VOpaque, r)
+  | "R" :: n :: r -> let (xs, r') = parse_vals (int_of_string n) r in (VRec xs, r')
+  | "A" :: n :: r -> let (xs, r') = parse_vals (int_of_string n) r in (VArr xs, r')
+  | t :: _ -> raise (Bad ("val token " ^ t))
+  | [] -> raise (Bad "val: end of input")
+and parse_vals n toks =
+  if n = 0 then ([], toks)
+  else
+    let (x, r) = parse_val toks in
+    let (xs, r') = parse_vals (n - 1) r in
+    (x :: xs, r')
+
+let n_ready = ref 0
+let n_asked = ref 0
 
 let passed_of s =
   if s = "N" then []
@@ -84,5 +107,16 @@ let () =
              let s = Convstr.ocaml_string stage in
              if Stdlib.String.length s >= 10 && Stdlib.String.sub s 0 10 = "unmodelled" then print_endline "UNMODELLED"
              else print_endline "ERR")
+        | "R" :: passed :: hv :: verdict :: rest ->
+          (* the round-trip theorem predicts "eq" wherever its conditions hold; elsewhere it says nothing *)
+          let (v, _) = parse_val rest in
+          incr n_asked;
+          if ready_run (hv = "1") (passed_of passed) v then (incr n_ready; print_endline "eq")
+          else print_endline verdict
         | _ -> print_endline "?"
-      with Bad m -> print_endline ("bad: " ^ m))
+      with Bad m -> print_endline ("bad: " ^ m));
+  if Array.length Sys.argv > 2 then begin
+    let oc = open_out Sys.argv.(2) in
+    Printf.fprintf oc "{\"roundtrip_conditions_hold\": %d, \"files\": %d}\n" !n_ready !n_asked;
+    close_out oc
+  end
